@@ -1,5 +1,6 @@
 import OjgVerif.Reflect.Lemmas
 import OjgVerif.Reflect.EncOmit
+import OjgVerif.Reflect.EncOmitAlt
 import OjgVerif.Gen.ReflectEnc
 /-! # C15 — OmitNil / OmitEmpty in the writers of oj and sen (model `Reflect/EncOmit.lean`)
 
@@ -120,6 +121,27 @@ theorem writers_oj_sen_agree_omit (o : Opts) (tf vf : Nat) (t : GoType) (v : GoV
   unfold encodeO encodeOWith
   rw [hp, hq]
 
+/-! ## the walker asks for nested plans under the caller's flag only -/
+
+/-- Code as it is (no quirk hands an `omitempty` flag down: `nestedOmit = false`): the walker only
+ever executes `plan false …`, the plan of a struct type built with the CALLER's `OmitEmpty` (`planOf`
+adds `o.omitEmpty`), at every depth. This is the walker's side of `cache_history_independent`
+(`Props/C15Cache.lean`): there, every node of the plan tree a lookup returns carries the caller's
+flag; here, the tree written depends on the plan function only through that flag. -/
+theorem walker_uses_callers_flag (q : Quirks) (hq : q.nestedOmit = false) (o : Opts) (sd : Bool)
+    (plan plan' : Bool → List (FieldHdr × GoType) → List Finfo) (hp : ∀ fs, plan false fs = plan' false fs) :
+    ∀ (vf : Nat) (vi ie : Bool) (t : GoType) (v : GoVal),
+      encValO q o sd plan vf vi ie false t v = encValO q o sd plan' vf vi ie false t v := by
+  intro vf
+  induction vf with
+  | zero => intro vi ie t v; rfl
+  | succ n ih =>
+    intro vi ie t v
+    have ihf : ∀ (a b : Bool) (e : GoType), encValO q o sd plan n a b false e = encValO q o sd plan' n a b false e := by
+      intro a b e; funext x; exact ih a b e x
+    have hc : ∀ fi, childOE q fi = false := by intro fi; simp [childOE, hq]
+    cases t <;> cases v <;> simp only [encValO, ih, ihf, hc, hp, Bool.false_and]
+
 /-! ## the tight and the indented writer -/
 
 /-- the options the walker reads (everything but `indent`, which only selects the writer) -/
@@ -233,5 +255,80 @@ theorem omit_tight_indent_full_false : ¬ omit_tight_indent_full := by
   rw [h1] at hw
   rw [hw.2.1] at hw
   exact absurd hw.1 (by decide)
+
+/-! ## alt.Decompose under the omit options (model `Reflect/EncOmitAlt.lean`) -/
+
+theorem altMemberDropped_off (o : Opts) (hn : o.omitNil = false) (he : o.omitEmpty = false) (b : Bool) (j : JV) :
+    altMemberDropped o b j = false := by
+  cases j <;> simp [altMemberDropped, hn, he]
+
+theorem fieldMemberA_off (q : Quirks) (o : Opts) (hn : o.omitNil = false) (he : o.omitEmpty = false)
+    (enc : Bool → GoType → GoVal → JV) (sv : GoVal) (fi : Finfo) : fieldMemberA q o enc sv fi = fieldMember q enc sv fi := by
+  unfold fieldMemberA
+  cases h : fieldMember q enc sv fi with
+  | none => rfl
+  | some m =>
+    cases fieldByIndex sv fi.index with
+    | none => rfl
+    | some x => simp [keepA, altMemberDropped_off o hn he]
+
+theorem encValA_off (q : Quirks) (o : Opts) (hn : o.omitNil = false) (he : o.omitEmpty = false)
+    (plan : Bool → List (FieldHdr × GoType) → List Finfo) :
+    ∀ (vf : Nat) (vi ie oe : Bool) (t : GoType) (v : GoVal),
+      encValA q o plan vf vi ie oe t v = encVal q o plan vf vi ie oe t v := by
+  intro vf
+  induction vf with
+  | zero => intro vi ie oe t v; rfl
+  | succ n ih =>
+    intro vi ie oe t v
+    have ihf : ∀ (a b c : Bool) (e : GoType), encValA q o plan n a b c e = encVal q o plan n a b c e := by
+      intro a b c e; funext x; exact ih a b c e x
+    cases t <;> cases v <;>
+      simp only [encValA, encVal, ih, ihf, keepA, altMemberDropped_off o hn he, fieldMemberA_off q o hn he,
+        Bool.false_eq_true, ↓reduceIte, List.filterMap_eq_map']
+    all_goals rfl
+
+/-- with `OmitNil` and `OmitEmpty` off, the omit model of alt.Decompose is `encode .alt` -/
+theorem encodeA_off_eq_encode (d : Dev) (o : Opts) (hn : o.omitNil = false) (he : o.omitEmpty = false)
+    (tf vf : Nat) (t : GoType) (v : GoVal) : encodeA d o tf vf t v = encode .alt d o tf vf t v := by
+  unfold encodeA encode
+  exact encValA_off _ o hn he _ vf true false false t v
+
+def omitEmptyOnly : Opts := ⟨false, false, false, false, true, false, false, false, 0, []⟩
+def mapStrInt : GoType := .map (.int 0)
+def mapZeroInt : GoVal := .map [("k".toUTF8.toList, .int 0)]
+
+/-- A current, machine-checked instance of known finding `C15-omit-options`:
+`map[string]int{"k": 0}` under `OmitEmpty` is `{"k":0}` for oj and sen (the reflective map walker keeps
+zero numbers) and `{}` for alt.Decompose (`condMapSet` drops an `int64` 0). -/
+theorem omit_oj_alt_differ_witness :
+    jvBeq (encodeO .oj Dev.current omitEmptyOnly 4 4 mapStrInt mapZeroInt) (.obj [("k".toUTF8.toList, .int 0)]) = true ∧
+    jvBeq (encodeO .sen Dev.current omitEmptyOnly 4 4 mapStrInt mapZeroInt) (.obj [("k".toUTF8.toList, .int 0)]) = true ∧
+    jvBeq (encodeA Dev.current omitEmptyOnly 4 4 mapStrInt mapZeroInt) (.obj []) = true := by
+  decide +kernel
+
+/-- the omit tests of alt.Decompose (`condMapSet`) and of pretty's node builder, as regenerated from
+the source: exactly the cases of `altMemberDropped` and `prettySkip` -/
+theorem omit_tests_alt_pretty_match_source :
+    Gen.ReflectEnc.altCondMapSetCases =
+      [("nil", "opt.OmitNil || opt.OmitEmpty"), ("string", "opt.OmitEmpty && len(tv) == 0"),
+       ("[]any", "opt.OmitEmpty && len(tv) == 0"), ("map[string]any", "opt.OmitEmpty && len(tv) == 0"),
+       ("bool", "opt.OmitEmpty && !tv"), ("int64", "opt.OmitEmpty && tv == 0")] ∧
+    Gen.ReflectEnc.prettySkips =
+      [("buildNull", "w.OmitNil"), ("buildStringNode", "w.OmitEmpty && len(v) == 0"),
+       ("buildArrayNode", "w.OmitEmpty && len(v) == 0"), ("buildGenArrayNode", "w.OmitEmpty && len(v) == 0"),
+       ("buildMapNode", "w.OmitEmpty && len(v) == 0"), ("buildGenMapNode", "w.OmitEmpty && len(v) == 0")] := by
+  decide +kernel
+
+def mapStrAny : GoType := .map .iface
+def mapFalse : GoVal := .map [("f".toUTF8.toList, .iface .bool (.bool false))]
+
+/-- pretty.JSON and alt.Decompose differ under `OmitEmpty` although pretty decomposes with the same
+options: `map[string]any{"f": false}` is walked as it is by pretty's builder (false is kept: `{"f":false}`)
+and filtered by `condMapSet` in alt.Decompose (`{}`) -/
+theorem omit_pretty_alt_differ_witness :
+    jvBeq (encodeP Dev.current omitEmptyOnly 4 4 mapStrAny mapFalse) (.obj [("f".toUTF8.toList, .bool false)]) = true ∧
+    jvBeq (encodeA Dev.current omitEmptyOnly 4 4 mapStrAny mapFalse) (.obj []) = true := by
+  decide +kernel
 
 end OjgVerif.C15
